@@ -11,7 +11,7 @@ from .pair import Pair
 from .sched import Scheduler, trace_provider_mdib
 from .tlc import SPEC_DIR, MachineryError, json_lines, run_tlc
 
-HANDLES = ['vmd', 'ch', 'm1', 'm2', 'pc']
+HANDLES = ['vmd', 'ch', 'm1', 'm2', 'pc', 'dA']
 CTX = ['c1', 'c2']
 
 
@@ -102,6 +102,29 @@ class Lab:
                 reads.append(self._read_record('GetMdDescription', None, res.mdib_version_group, descrs=descrs))
             return fn
 
+        def r_descr_of(handles):
+            def fn():
+                res = get.get_md_description([conc(h) for h in handles])
+                node = res.p_msg.msg_node
+                mdd = [n for n in node if n.tag.endswith('MdDescription')][0]
+                descrs = self.pair.consumer.msg_reader._read_md_description_node(mdd)  # noqa: SLF001
+                reads.append(self._read_record('GetMdDescription[req]', handles, res.mdib_version_group, descrs=descrs))
+            return fn
+
+        def w_add(a, parent):
+            def fn():
+                from .mdibharness import make_descriptor
+                with m.descriptor_transaction() as mgr:
+                    d = make_descriptor(m, a, conc(parent))
+                    mgr.add_descriptor(d, state_container=m.data_model.mk_state_container(d))
+            return fn
+
+        def w_del(a):
+            def fn():
+                with m.descriptor_transaction() as mgr:
+                    mgr.remove_descriptor(conc(a))
+            return fn
+
         def r_ctx(handles):
             def fn():
                 hs = None if handles is None else [proj.map_c.get(h) or conc(h) for h in handles]
@@ -115,6 +138,7 @@ class Lab:
             'W_descr_m1': w_descr('m1'), 'W_descr_ch': w_descr('ch'), 'W_ctx': w_ctx(),
             'R_state_m1': r_state(['m1'], 'GetMdState[m1]'), 'R_state_all': r_state(None, 'GetMdState[]'),
             'R_mdib': r_mdib(), 'R_descr': r_descr(), 'R_ctx_all': r_ctx(None), 'R_ctx_pc': r_ctx(['pc']),
+            'R_descr_dA': r_descr_of(['dA']), 'W_add_dA': w_add('dA', 'vmd'), 'W_del_dA': w_del('dA'),
         }
         return table[name]
 
@@ -152,8 +176,28 @@ class Lab:
         return prog
 
     # ------------------------------------------------------------------ scheduled execution
-    def execute(self, names, schedule):
-        """Run the operations `names` as threads 1..n under `schedule` (list of thread ids). Return the record."""
+    def run_free(self, name):
+        """Run one operation unscheduled (set-up / clean-up between schedules)."""
+        self.reads = []
+        s = Scheduler(record_only=True)
+        self.ref.s = s
+        s.run_free(1, self.op(name))
+
+    def execute(self, names, schedule, pre=(), post=()):
+        """Run the operations `names` as threads 1..n under `schedule` (list of thread ids). Return the record.
+        `pre` / `post` operations run unscheduled before / after (they bring the MDIB into / back from the start state)."""
+        for name in pre:
+            self.run_free(name)
+        try:
+            return self._execute(names, schedule)
+        finally:
+            for name in post:
+                try:
+                    self.run_free(name)
+                except Exception:  # noqa: BLE001  the scheduled run already removed / created it
+                    pass
+
+    def _execute(self, names, schedule):
         self.reads = []
         self.wire = []
         s = Scheduler()
